@@ -74,9 +74,10 @@ def CtrEffect (sh sh' : Shared) (t t' : Thread) : Prop :=
   (sh'.ctr = sh.ctr ∧ sh'.incs = sh.incs ∧ ∀ v, t'.loc = some v → v = sh.ctr ∧ t'.held = true)
   ∨ (t.held = true ∧ sh'.ctr = sh.ctr + 1 ∧ sh'.incs = sh.incs + 1 ∧ t'.loc = none ∧ sh'.lock = sh.lock)
 
-theorem and_self_eq_zero (n : Nat) : ((n &&& n) == 0) = (n == 0) := by simp
-
 set_option maxHeartbeats 1000000 in
+/-- One instruction of the generated `acquireAsm` preserves the per-thread invariant; the lock word
+changes only together with ownership (case analysis over the 20 instructions; the thread that
+steps is arbitrary, all other threads do not appear). -/
 theorem asm_local (cfg : Config) (sh : Shared) (t : Thread) (rpc pc : Nat) (m : Method) hv
     (hph : t.ph = .asm m rpc pc) (hL : Local cfg t)
     (hw : sh.lock = 0 ∨ sh.lock = 1) (ho : Owner t → sh.lock = 1)
@@ -132,6 +133,7 @@ theorem asm_own (cfg : Config) (sh : Shared) (t : Thread) (rpc pc : Nat) (m : Me
         hheld, Owner, asmWon, hph, hw, two32, hz, *]
        all_goals (exfalso; simp_all))
 
+/-- the same for one atomic operation of the generated Go bodies -/
 theorem go_local (cfg : Config) (sh : Shared) (t : Thread) (m : Method) (pc : Nat)
     (hph : t.ph = .go m pc) (hL : Local cfg t)
     (hw : sh.lock = 0 ∨ sh.lock = 1) (ho : Owner t → sh.lock = 1)
